@@ -5,6 +5,18 @@ HERE = os.path.dirname(os.path.abspath(__file__))
 props = [json.loads(l) for l in open(os.path.join(HERE, "properties.jsonl"))]
 
 CLAIMED = {
+ "C04": dict(cat="proof", technique="piecewise-polynomial identity shift(front face kernel)+back face kernel == 0; telescoping criterion on extracted flux increments; stage-by-stage increments of the symbolic step transformer",
+             text="Exact conservation form of the ENO3 face kernels for every axis, dimension and upwind branch; zero coefficient sums of every linear flux (diffusion, curl-type updates, filters); every stage of the conserved field in every simulator configuration is prev + conservative/telescoping increment with homogeneous boundary pieces. Polynomial identities over Q: all field values, grid sizes and sign patterns at once.",
+             note="exact arithmetic (rounding excluded, as the property states); trusted A1, A2, A7", ref="5 C04"),
+ "C05": dict(cat="proof", technique="moment conditions: extracted wrapper-resolved stencils applied to generic degree<=2 (ENO3: branchwise cubic/quadratic) polynomials with symbolic coefficients vs documented continuous operators; closed form of the coordinate field",
+             text="Every differential stencil equals its documented continuous operator on all polynomials of degree <= 2 (sign, axis and prefactor conventions included); ENO3 per upwind-branch combination; coordinate field axis convention from _init_domain.",
+             note="trusted A1, A2, A7; continuous operators written from docstrings/comments in sa/props/c05.py", ref="5 C05"),
+ "C12": dict(cat="proof", technique="composition of extracted stencils as polynomial substitution; normal form of the difference must be 0",
+             text="div curl = 0, div(update-id) = 0, 2D div(curl psi) = 0, curl curl psi = wide negative Laplacian, update_from_forcing = id + library curl, penalised update = forcing update of the difference; monitor binding and write set from the simulator trace.",
+             note="exact arithmetic at cells whose stencils do not touch the ring; trusted A1, A2, A7", ref="5 C12"),
+ "C20": dict(cat="proof", technique="symbolic execution of the time-step wrappers; Euler operator A extracted from the Euler kernel and composed (A, A^2, A^3); equality of normal forms",
+             text="Euler kernels equal field + step*flux(field) with the library's own flux kernels and the unscaled step; SSP-RK3 summary equals (I + A + A^2/2 + A^3/6) omega with A the extracted Euler operator for the same step.",
+             note="deep-interior cells (ring handling is C13/C18); trusted A1, A2, A7", ref="5 C20"),
  "C13": dict(cat="other", technique="abstract interpretation of generators -> op trace; symbolic store execution; normal-form equality with documented closed forms; region algebra with asymptotic bound ordering",
              text="For every public grid-kernel generator and option combination the resolved summary of the returned callable (wrapper plumbing inlined, arbitrary array contents, symbolic grid sizes) equals the documented closed form on the documented region, the ring/zone is as documented, and no other argument is written. Decides the property up to pystencils' own semantics.",
              note="trusted: A1 pystencils 1.x iteration-space rule, A2 exact literals, A3 numpy slicing/broadcast, A7 the analyser, A8 distinct arguments; strided-view behaviour is pystencils'", ref="5 C13"),
